@@ -162,6 +162,39 @@ KNOWN_EXN = ("InactiveModes", "InvalidParameter", "InvalidSimulation", "InvalidM
              "InvalidState", "PiquassoException")
 
 
+def fr(x):
+    from fractions import Fraction
+    return float(Fraction(x))
+
+
+def make_pd(name, pd, cutoff):
+    """An instance whose constrained parameter is given exactly by the descriptor [pd]."""
+    kind = pd["kind"]
+    mat = lambda m: np.array([[fr(x) for x in row] for row in m])  # noqa: E731
+    if kind == "square":
+        r, c = pd["rows"], pd["cols"]
+        return pq.Interferometer(unitary(r) if r == c else np.ones((r, c)))
+    if kind == "thermal":
+        return pq.Thermal([fr(x) for x in pd["ns"]])
+    if kind == "symmetric":
+        return pq.Graph(mat(pd["m"]))
+    if kind == "symplectic":
+        return pq.GaussianTransform(passive=mat(pd["passive"]), active=mat(pd["active"]))
+    if kind == "nonneg":
+        return pq.Attenuator(theta=0.3, mean_thermal_excitation=fr(pd["x"]))
+    if kind == "interval01":
+        return pq.UniformLoss(transmissivity=fr(pd["x"]))
+    if kind == "detector":
+        return pq.ImperfectParticleNumberMeasurement(mat(pd["m"]))
+    if kind == "snap":
+        return pq.SNAP(theta=np.linspace(0.0, 0.3, pd["len"]))
+    if kind == "occ":
+        if name == "DensityMatrix":
+            return pq.DensityMatrix(ket=pd["occ"], bra=pd["occ"])
+        return getattr(pq, name)(pd["occ"])
+    raise KeyError(kind)
+
+
 def exc_enum(e):
     cls = type(e)
     if isinstance(e, PiquassoException):
@@ -262,7 +295,10 @@ def build_instruction(spec, d, cutoff):
     modes = reg.get("modes") or []
     k = spec.get("k") or (len(modes) if modes else (d or 1))
     variant = spec.get("variant", "ok")
-    ins = make(cls.__name__, k, cutoff, variant, spec.get("occ"))
+    if spec.get("pd"):
+        ins = make_pd(cls.__name__, spec["pd"], cutoff)
+    else:
+        ins = make(cls.__name__, k, cutoff, variant, spec.get("occ"))
     if variant.startswith("unresolved"):
         # make one parameter outcome-dependent (callable), keeping its value
         name = next(iter(ins._params))
